@@ -11,15 +11,16 @@ struct recorder {
 	int terms;
 	/* trxcon_phyif_handle_burst_ind */
 	int n_ind;
-	uint32_t ind_fn; uint8_t ind_tn; int16_t ind_toa256; int8_t ind_rssi;
+	/* wider than any declared field type: what the structure holds is recorded as it is, also if a field's type changes */
+	long long ind_fn, ind_tn, ind_toa256, ind_rssi;
 	unsigned int ind_burst_len;
 	int8_t ind_burst[1024];
 	/* trxcon_phyif_handle_rts_ind */
 	int n_rts;
-	uint32_t rts_fn; uint8_t rts_tn;
+	long long rts_fn, rts_tn;
 	/* trxcon_phyif_handle_rsp */
 	int n_rsp;
-	int rsp_type; uint16_t rsp_arfcn; int rsp_dbm;
+	long long rsp_type, rsp_arfcn, rsp_dbm;
 };
 
 extern struct recorder rec;
